@@ -13,6 +13,7 @@ import (
 	_ "verifharness/engines/lookup"
 	_ "verifharness/engines/net"
 	_ "verifharness/engines/lightclient"
+	_ "verifharness/engines/stateproof"
 	_ "verifharness/engines/store"
 	_ "verifharness/engines/table"
 )
